@@ -27,7 +27,12 @@
 // through the same three clauses, and a zero-width family (zerowidth.go)
 // lists of 0..8 and maps of 0..1 entries that occupy no byte ([()], [v],
 // [(v())], {vv}...), alone and followed by 0..4 bytes of further members, so
-// that a count exceeds the number of bytes after it.
+// that a count exceeds the number of bytes after it. A length-sweep family
+// (lensweep.go) takes every variable-length leaf through a sweep of lengths, a
+// signature-shape family (sigshape.go) runs wide and deep signatures (1..40
+// sibling or nested composites of every kind, typed and carried by dynamic
+// values), a limit family (limits.go) strings and raw buffers of cap-1, cap
+// and cap+1 bytes around the documented cap of 10 MiB.
 //
 // The Go type of a signature is the one generated code uses (see
 // internal/enum/gobridge): 'm' is value.Value, 'o' object.ObjectReference.
@@ -307,7 +312,9 @@ func report(d *refmodel.Datum, ep entryPoint, dl delivery, clause string) {
 	detail, min := enum.Blame(d, fails, nil)
 	mclause, det := ep.eval(min, dl)
 	if mclause == "" {
-		run.EngineError("reduction of %s %s lost the failure", d.T, d)
+		// the oracle saw the failure, the re-runs of the reduction do not: the
+		// code under test keeps state between calls
+		unstable(fmt.Sprintf("codec/%s/%s/sig-x-val", ep.name, clause), ep, dl, clause, sigName(d), d.String(), refmodel.Encode(d))
 		return
 	}
 	fp := fmt.Sprintf("codec/%s/%s/%s", ep.name, mclause, detail)
@@ -327,6 +334,17 @@ func report(d *refmodel.Datum, ep entryPoint, dl delivery, clause string) {
 	}
 }
 
+// unstable files a failure the oracle observed during the enumeration that
+// the re-runs made for its attribution no longer show (a repository that
+// keeps state between calls: a pooled buffer, a cache): a violation with the
+// fingerprint fp/depends-on-earlier-calls, not a failure of the machinery. fp
+// names the entry point, the clause and the family only: on which datum such
+// a failure shows is an accident of the order of the calls.
+func unstable(fp string, ep entryPoint, dl delivery, clause, sig, val string, b []byte) {
+	run.Unstable(fp, fmt.Sprintf("%s on signature %s, value %s (documented serialization %s), %s: clause %s", ep.name, clip(sig, 200), clip(val, 200), hexs(b), dl, clause),
+		map[string]interface{}{"entry": ep.name, "signature": clip(sig, 400), "value": clip(val, 400), "refmodel_hex": hexs(b), "refmodel_len": len(b), "delivery": dl.String(), "clause": clause})
+}
+
 func main() {
 	run = enum.NewRun("C03", 75*time.Second, 12*time.Minute)
 	depth := 2
@@ -342,7 +360,7 @@ func main() {
 	}
 	var nvals, nboundary, typeMismatch, typeChecked int64
 	var boundaryData []string
-	var zeroWidth, lengthSweep map[string]interface{}
+	var zeroWidth, lengthSweep, sigShape, limits map[string]interface{}
 	var mu sync.Mutex
 	var mismatches []string
 
@@ -360,7 +378,15 @@ func main() {
 			"x the positions alone, tuple-last (ix), tuple-non-last (xi), list-elem-followed [x,y], in-value m<x> and value-in-list-followed [m<x>,m<i>] (the last two not for m-signature and m-raw) - the full product, no subset - " +
 			"with position-dependent content without period, through the 3 entry points (decoding ones under 6 deliveries: the 3 above, sentinel follows/4093-byte reads, data+EOF, *bytes.Buffer holding the encoding and a sentinel) and, for s alone, basic.WriteString and basic.ReadString (thorough: s alone at every length 0..70000 through the 5 entry points under the first delivery); " +
 			"a failure is attributed to the smallest failing length (bisection between enumerated lengths); " +
-			"evaluations counts (datum, entry point, delivery) executions. A case class is (signature shape with struct names dropped - for the boundary family followed by #n=<entries>, for the zero-width family followed by the position and by whether the count exceeds the bytes after the container; for the length-sweep family: leaf, position, length class 0..300 | power-of-two neighbourhood -, entry point, outcome); distinct_nontrivial counts the distinct classes executed"
+			"plus the signature-shape family (families signature-shape/<entry point>): signatures of the shapes wide (n sibling composites as the members of one tuple - of one structure for the kind struct), wide-depth-2 (that tuple as the middle member of (I<wide>s)) and deep (n composites nested around an 'i') " +
+			"x the kinds tuple (Ic), struct (Ic)<Pj,x,y>, list [i] (j mod 3 elements), map {is} (j mod 2 entries) and mixed (sibling / level j of kind j mod 4) x every n of 1..40 (thorough: 1..100) " +
+			"x the carriers typed (the datum itself), m (the dynamic value carrying it), (Ims) (that value between an integer and a string) and [mm] (the list of that value and m<i>) - the full product, content of sibling j a function of j - through the 3 entry points under the 3 deliveries; " +
+			"a failure is attributed to the smallest failing n per entry point and shape (n = 1: ordinary attribution); " +
+			"plus the limit family (families limit/<entry point>): the capped variable-length leaves at their documented cap of 10 MiB = 10485760 bytes: s (string) of cap-1, cap and cap+1 bytes, m-raw (dynamic value carrying a raw buffer; reflection encoder and decoder only) of cap-1 and cap bytes " +
+			"x the positions alone, tuple-last (ix), tuple-non-last (xi) and, for s, in-value m<s> (thorough: also list-elem-followed and, for s, value-in-list-followed) - the full product, position-dependent content - " +
+			"through the 3 entry points (decoding ones under 3 deliveries: sentinel follows/unfragmented, separate EOF/65521-byte reads, *bytes.Buffer holding exactly the encoding) and, for s alone, basic.WriteString and basic.ReadString; " +
+			"oracle: up to the cap the usual clauses, at cap+1 every entry point - writers and readers alike - must return an error (clause accepted-above-cap otherwise); " +
+			"evaluations counts (datum, entry point, delivery) executions. A case class is (signature shape with struct names dropped - for the boundary family followed by #n=<entries>, for the zero-width family followed by the position and by whether the count exceeds the bytes after the container; for the length-sweep family: leaf, position, length class 0..300 | power-of-two neighbourhood -, entry point, outcome; for the signature-shape family: shape-kind, carrier, class of n (1..8, 9..16, 17..40, 41..100), entry point, outcome; for the limit family: leaf, position, cap-1 | cap | cap+1, entry point, outcome); distinct_nontrivial counts the distinct classes executed"
 		mu.Lock()
 		mm := append([]string(nil), mismatches...)
 		mu.Unlock()
@@ -369,6 +395,8 @@ func main() {
 			"boundary":                  map[string]interface{}{"documented_cap": sizeCap, "entries": boundaryCounts, "data_executed": nboundary, "data": boundaryData},
 			"zero_width":                zeroWidth,
 			"length_sweep":              lengthSweep,
+			"signature_shape":           sigShape,
+			"limit":                     limits,
 			"go_type_vs_signature_Type": map[string]interface{}{"compared_m_and_o_free_signatures": typeChecked, "different": typeMismatch, "first": mm},
 		}
 		assumptions := []string{
@@ -379,7 +407,9 @@ func main() {
 			"decoders are given three reader types/extents: the fragmenting reader with a sentinel after the encoding, the fragmenting reader with a separate EOF, and a *bytes.Buffer holding exactly the encoding (bytes.NewBuffer(payload), what generated code passes); other reader types (*bytes.Reader, bufio.Reader) are not enumerated",
 			"4096 entries (listValueMaxSize of type/encoding and type/value) is the largest list or map the codecs are documented to handle: 4095 and 4096 entries must be handled by the three entry points alike; larger counts are refused on purpose by the repository and are not judged",
 			"dynamic values carry every scalar kind, strings, void, [i], [s], (is), {sI}; 'r' (raw) is not enumerated by Sig x Val: the repository's signature grammar has no 'r' atom (the length-sweep family passes a raw buffer carried by a value.Value through the reflection encoder and decoder, layout: 32-bit count then the bytes)",
-			"length-sweep: thresholds on the length of a leaf are looked for at every length up to 300 (4200 for a string or a signature alone) and next to the powers of two up to 64 KiB (thorough 1 MiB); a defect that only shows for lengths in a narrow band elsewhere (say 1000..1003) is not reached; lengths above 1 MiB + 1 (the codecs accept strings up to 10 MiB) are not enumerated",
+			"length-sweep: thresholds on the length of a leaf are looked for at every length up to 300 (4200 for a string or a signature alone) and next to the powers of two up to 64 KiB (thorough 1 MiB); a defect that only shows for lengths in a narrow band elsewhere (say 1000..1003) is not reached; between 1 MiB + 1 and the cap of 10 MiB only cap-1, cap and cap+1 are enumerated (limit family)",
+			"limit: basic.MaxStringSize ('the longest string allowed', 10 MiB) is a documented cap of the format: a string of cap+1 bytes must be refused by the writers and by the readers, a string of cap bytes handled by all of them; the cap is the documented number, not the constant of the tree under test. For a raw buffer carried by a dynamic value (10 MiB, a constant of type/value that is not exported) only cap-1 and cap are enumerated, nothing above; the 10 MiB data are not delivered one byte per read; a signature string of 10 MiB is not enumerated",
+			"signature-shape: no limit on the number of members of a tuple or on the nesting depth of a signature is documented, so every entry point must handle all enumerated shapes; n stops at 40 (thorough 100): a threshold above is not reached; dynamic values carry the composites as value.Opaque (signature + reference-model bytes), what generated code builds for a structure passed as a value",
 			"a codec call that does not return within the hang limit (5 executions) is reported as a violation with the clause 'hang' and ends the enumeration",
 		}
 		return run.Finish(rule, true, extra, assumptions)
@@ -401,6 +431,8 @@ func main() {
 	nboundary, boundaryData = familyBoundary()
 	zeroWidth = familyZeroWidth()
 	lengthSweep = familyLengthSweep(run.Thorough())
+	sigShape = familySignatureShape(run.Thorough())
+	limits = familyLimit(run.Thorough())
 
 	guards := make(chan *enum.Guard, run.Workers+1)
 	for i := 0; i <= run.Workers; i++ {
